@@ -23,6 +23,10 @@ pub enum Case {
     AddXY { x1: String, y1: String, l1: String, x2: String, y2: String, l2: String, tag: String },
     /// unary point operations and predicates on [k]G with Z = l
     Unary { k: String, l: String },
+    /// the unary battery on a point given by its coordinates (points no multiple-of-G alphabet reaches: x = 0)
+    UnaryXY { x: String, y: String, l: String, tag: String },
+    /// the point at infinity written as (ix : iy : 0), any ix, iy, met with the finite point [k]G held with Z = l
+    InfOps { ix: String, iy: String, k: String, l: String },
     /// off-curve triple: [k]G with Z = l, one coordinate bumped (which = 0 x, 1 y, 2 z)
     OffCurve { k: String, l: String, which: u8 },
     ScalarMul { base: String, l: String, scalar: String, tag: String },
@@ -243,44 +247,71 @@ pub fn eval(ctx: &Ctx, case: &Case) {
         Case::Unary { k, l } => {
             let (k, l) = (hb(k), hb(l));
             let (p, r) = rep_point(&k, &l);
-            let cls = rep_class(&l);
-            ctx.calls(5);
+            unary_checks(ctx, &p, &r, rep_class(&l), format!("[{}]G Z={}", hexbig(&k), hexbig(&l)), &cj);
+        }
+        Case::UnaryXY { x, y, l, tag } => {
+            let r: Pt = Some((hb(x), hb(y)));
+            let l = hb(l);
+            if !pr.curve.on_curve(&r) {
+                ctx.machinery_error("UnaryXY operand is not on the curve");
+                return;
+            }
+            let p = lib_point(&r, &l);
+            let cls = format!("{}/{}", tag, rep_class(&l));
+            unary_checks(ctx, &p, &r, &cls, format!("({}, {}) Z={}", x, y, hexbig(&l)), &cj);
+            // small multiples and the inverse, variable-base
+            ctx.calls(4);
+            for kk in [BigUint::from(2u32), BigUint::from(3u32), &pr.n - 1u32, &pr.n + 1u32] {
+                match guard(|| p.scalar_mul(&scalar(&kk))) {
+                    Guard::Done(q) if ref_point(&q) == sm2::mul(&(&kk % &pr.n), &r) => {}
+                    other => ctx.violation("Point::scalar_mul", &format!("wrong-product/{}", cls), format!("[{}]({}, {}) Z={} -> {}", hexbig(&kk), x, y, hexbig(&l), gp(&other)), cj()),
+                }
+            }
+            // reached as a sum: 2P + (-P) = P, through the library's own doubling, negation and addition
+            match guard(|| p.point_dbl().point_add(&p.neg())) {
+                Guard::Done(q) if ref_point(&q) == r => {
+                    let desc = format!("2P + (-P) for P = ({}, {}) Z={}", x, y, hexbig(&l));
+                    unary_checks(ctx, &q, &r, &format!("{}/reached-as-a-sum", tag), desc, &cj);
+                }
+                other => ctx.violation("Point::point_add", &format!("wrong-sum/{}/2P+(-P)", cls), gp(&other), cj()),
+            }
+        }
+        Case::InfOps { ix, iy, k, l } => {
+            let (k, l) = (hb(k), hb(l));
+            let o = Point { x: to_mont(&hb(ix)), y: to_mont(&hb(iy)), z: [0; 4] };
+            let (q, rq) = rep_point(&k, &l);
+            let cls = "infinity-as-(t^2:t^3:0)".to_string();
+            ctx.calls(7);
             ctx.trace();
-            // doubling
-            match guard(|| p.point_dbl()) {
-                Guard::Done(d) if ref_point(&d) == sm2::add(&r, &r) => ctx.outcome(&format!("ok/dbl/{}", cls)),
-                other => ctx.violation("Point::point_dbl", &format!("wrong-double/{}", cls), format!("[{}]G Z={} -> {}", hexbig(&k), hexbig(&l), gp(&other)), cj()),
-            }
-            // negation
-            match guard(|| p.neg()) {
-                Guard::Done(d) if ref_point(&d) == pr.curve.neg(&r) => {}
-                other => ctx.violation("Point::neg", &format!("wrong-negation/{}", cls), format!("[{}]G Z={} -> {}", hexbig(&k), hexbig(&l), gp(&other)), cj()),
-            }
-            // predicates (whether the point at infinity counts as "valid" is a convention, not judged)
-            if r.is_some() {
-                match guard(|| p.is_valid()) {
-                    Guard::Done(true) => {}
-                    other => ctx.violation("Point::is_valid", &format!("valid-point-rejected/{}", cls), format!("[{}]G Z={} -> {:?}", hexbig(&k), hexbig(&l), other), cj()),
-                }
-            }
-            if r.is_some() {
-                // affine conversion (finite points only)
-                match guard(|| p.to_affine_point()) {
-                    Guard::Done(a) if ref_point(&a) == r && from_mont(&a.z).is_one() => {
-                        match guard(|| a.is_valid_affine_point()) {
-                            Guard::Done(true) => {}
-                            other => ctx.violation("Point::is_valid_affine_point", &format!("valid-point-rejected/{}", cls), format!("{:?}", other), cj()),
-                        }
-                        // SEC1 encodings of the point, both forms
-                        for comp in [false, true] {
-                            match guard(|| p.to_byte_be(comp)) {
-                                Guard::Done(b) if b == sm2::encode_point(&r, comp) => {}
-                                other => ctx.violation("Point::to_byte_be", &format!("wrong-encoding/{}", cls), format!("compressed={} -> {:?}", comp, other), cj()),
-                            }
-                        }
+            let desc = format!("O=({}:{}:0) Q=[{}]G Z={}", ix, iy, hexbig(&k), hexbig(&l));
+            let checks: Vec<(&str, Guard<Point>, Pt)> = vec![
+                ("O+Q", guard(|| o.point_add(&q)), rq.clone()),
+                ("Q+O", guard(|| q.point_add(&o)), rq.clone()),
+                ("O+O", guard(|| o.point_add(&o)), None),
+                ("dbl(O)", guard(|| o.point_dbl()), None),
+                ("neg(O)", guard(|| o.neg()), None),
+                ("[3]O", guard(|| o.scalar_mul(&scalar(&BigUint::from(3u32)))), None),
+                ("(O+Q)+Q", guard(|| o.point_add(&q).point_add(&q)), sm2::add(&rq, &rq)),
+            ];
+            let mut ok = true;
+            for (name, got, want) in checks {
+                match got {
+                    Guard::Done(r) if ref_point(&r) == want => {}
+                    other => {
+                        ok = false;
+                        ctx.violation("Point::point_add", &format!("wrong-result-with-infinity/{}/{}", name, cls), format!("{} -> {} want={}", desc, gp(&other), pt_str(&want)), cj());
                     }
-                    other => ctx.violation("Point::to_affine_point", &format!("wrong-affine/{}", cls), format!("[{}]G Z={} -> {}", hexbig(&k), hexbig(&l), gp(&other)), cj()),
                 }
+            }
+            match guard(|| o.is_zero()) {
+                Guard::Done(true) => {}
+                other => {
+                    ok = false;
+                    ctx.violation("Point::is_zero", &format!("infinity-not-recognised/{}", cls), format!("{} -> {:?}", desc, other), cj());
+                }
+            }
+            if ok {
+                ctx.outcome(&format!("ok/{}", cls));
             }
         }
         Case::OffCurve { k, l, which } => {
@@ -381,6 +412,50 @@ pub fn eval(ctx: &Ctx, case: &Case) {
     }
 }
 
+/// doubling, negation, validity, affine conversion and both SEC1 encodings of one library point whose affine value is r
+fn unary_checks(ctx: &Ctx, p: &Point, r: &Pt, cls: &str, desc: String, cj: &dyn Fn() -> Value) {
+    let pr = sm2::params();
+    let r = r.clone();
+    ctx.calls(5);
+    ctx.trace();
+    // doubling
+    match guard(|| p.point_dbl()) {
+        Guard::Done(d) if ref_point(&d) == sm2::add(&r, &r) => ctx.outcome(&format!("ok/dbl/{}", cls)),
+        other => ctx.violation("Point::point_dbl", &format!("wrong-double/{}", cls), format!("{} -> {}", desc, gp(&other)), cj()),
+    }
+    // negation
+    match guard(|| p.neg()) {
+        Guard::Done(d) if ref_point(&d) == pr.curve.neg(&r) => {}
+        other => ctx.violation("Point::neg", &format!("wrong-negation/{}", cls), format!("{} -> {}", desc, gp(&other)), cj()),
+    }
+    // predicates (whether the point at infinity counts as "valid" is a convention, not judged)
+    if r.is_some() {
+        match guard(|| p.is_valid()) {
+            Guard::Done(true) => {}
+            other => ctx.violation("Point::is_valid", &format!("valid-point-rejected/{}", cls), format!("{} -> {:?}", desc, other), cj()),
+        }
+    }
+    if r.is_some() {
+        // affine conversion (finite points only)
+        match guard(|| p.to_affine_point()) {
+            Guard::Done(a) if ref_point(&a) == r && from_mont(&a.z).is_one() => {
+                match guard(|| a.is_valid_affine_point()) {
+                    Guard::Done(true) => {}
+                    other => ctx.violation("Point::is_valid_affine_point", &format!("valid-point-rejected/{}", cls), format!("{:?}", other), cj()),
+                }
+                // SEC1 encodings of the point, both forms
+                for comp in [false, true] {
+                    match guard(|| p.to_byte_be(comp)) {
+                        Guard::Done(b) if b == sm2::encode_point(&r, comp) => {}
+                        other => ctx.violation("Point::to_byte_be", &format!("wrong-encoding/{}", cls), format!("compressed={} -> {:?}", comp, other), cj()),
+                    }
+                }
+            }
+            other => ctx.violation("Point::to_affine_point", &format!("wrong-affine/{}", cls), format!("{} -> {}", desc, gp(&other)), cj()),
+        }
+    }
+}
+
 fn gp(g: &Guard<Point>) -> String {
     match g {
         Guard::Done(p) => pt_str(&ref_point(p)),
@@ -455,7 +530,7 @@ pub fn run(ctx: &Arc<Ctx>) {
     refmodels::selftest::run(&["sm2"]).unwrap_or_else(|e| ctx.machinery_error(format!("reference self-test failed: {}", e)));
     let pr = sm2::params();
     let (p, n) = (pr.p.clone(), pr.n.clone());
-    ctx.set_rule("fields: operands = all 4-limb values with limbs in {0,1,2^32,2^63,2^64-1} below the modulus, values within 4 of it, 2^256-m, m/2, R, R^2, seeded; unary ops on all, binary ops on all x extreme (thorough: all x all); crafted Montgomery products landing on 0, 1, m-1. Raw u256/u512 helpers on all limb patterns. Group: [j]G for j in {1,2,3,5,n-1,n-2,seeded} x Z in {1,2,p-1,seeded,R^-1 (stored as plain 1),R} plus 3 encodings of infinity, all ordered pairs through point_add, triples of different points sharing y (and their negatives) in 3 representations through point_add, all through dbl/neg/affine/validity/SEC1; off-curve triples; scalars {0,1,2,15,16,17,n-1, w, n-w, n+w for w<=300, 2^256-1, every v*16^i, every b*256^i, adjacent-byte sums, long runs of one bits, seeded} through g_mul / scalar_mul of 3 bases and of the point at infinity in 3 encodings; all 32x255 table entries; all sequences of <= 2 (thorough 3) scalar multiplications over related bases {B, -B, B re-represented, other point} x 2 scalars on one thread. Oracle: affine big-integer arithmetic.");
+    ctx.set_rule("fields: operands = all 4-limb values with limbs in {0,1,2^32,2^63,2^64-1} below the modulus, values within 4 of it, 2^256-m, m/2, R, R^2, seeded; unary ops on all, binary ops on all x extreme (thorough: all x all); crafted Montgomery products landing on 0, 1, m-1. Raw u256/u512 helpers on all limb patterns. Group: [j]G for j in {1,2,3,5,n-1,n-2,seeded} x Z in {1,2,p-1,seeded,R^-1 (stored as plain 1),R} plus 3 encodings of infinity, all ordered pairs through point_add, triples of different points sharing y (and their negatives) in 3 representations through point_add, all through dbl/neg/affine/validity/SEC1; points with x = 0, with the smallest positive and the largest x (both roots, 6 representations, also reached as 2P + (-P)) through the same battery and small multiples; the point at infinity in 5 Jacobian encodings (t^2 : t^3 : 0) met with finite points and itself; off-curve triples; scalars {0,1,2,15,16,17,n-1, w, n-w, n+w for w<=300, 2^256-1, every v*16^i, every b*256^i, adjacent-byte sums, long runs of one bits, seeded} through g_mul / scalar_mul of 3 bases and of the point at infinity in 3 encodings; all 32x255 table entries; all sequences of <= 2 (thorough 3) scalar multiplications over related bases {B, -B, B re-represented, other point} x 2 scalars on one thread. Oracle: affine big-integer arithmetic.");
     let mut cases: Vec<Case> = Vec::new();
     let h = |x: &BigUint| hexbig(x);
     // ---- fields
@@ -574,6 +649,60 @@ pub fn run(ctx: &Arc<Ctx>) {
         if triples == 0 {
             ctx.machinery_error("no triple of points sharing y found");
         }
+    }
+    // points with a zero coordinate and their neighbours: b is a square, so (0, +-sqrt(b)) are finite curve points that no
+    // small multiple of G reaches; also the points with the smallest positive x and the largest x below p
+    {
+        let mut xs: Vec<(BigUint, &str)> = vec![(BigUint::zero(), "x=0")];
+        let mut x = BigUint::one();
+        while sm2::sqrt_mod_p(&((&x * &x * &x + &pr.a * &x + &pr.b) % &p)).is_none() {
+            x += 1u32;
+        }
+        xs.push((x, "smallest-positive-x"));
+        let mut x = &p - 1u32;
+        while sm2::sqrt_mod_p(&((&x * &x * &x + &pr.a * &x + &pr.b) % &p)).is_none() {
+            x -= 1u32;
+        }
+        xs.push((x, "largest-x"));
+        let mut count = 0;
+        for (x, tag) in &xs {
+            let Some(y) = sm2::sqrt_mod_p(&((x * x * x + &pr.a * x + &pr.b) % &p)) else {
+                ctx.machinery_error(format!("no curve point with {}", tag));
+                continue;
+            };
+            for yy in [y.clone(), &p - &y] {
+                for l in &lambdas {
+                    cases.push(Case::UnaryXY { x: h(x), y: h(&yy), l: h(l), tag: (*tag).into() });
+                    count += 1;
+                }
+                // and as operands of point_add with G and with themselves / their negatives
+                let (gx, gy) = pr.g.clone().unwrap();
+                for l1 in [BigUint::one(), BigUint::from(2u32)] {
+                    for l2 in [BigUint::one(), BigUint::from(2u32)] {
+                        cases.push(Case::AddXY { x1: h(x), y1: h(&yy), l1: h(&l1), x2: h(&gx), y2: h(&gy), l2: h(&l2), tag: format!("{}+G", tag) });
+                        cases.push(Case::AddXY { x1: h(&gx), y1: h(&gy), l1: h(&l1), x2: h(x), y2: h(&yy), l2: h(&l2), tag: format!("G+{}", tag) });
+                        cases.push(Case::AddXY { x1: h(x), y1: h(&yy), l1: h(&l1), x2: h(x), y2: h(&yy), l2: h(&l2), tag: format!("{}/same-point", tag) });
+                        cases.push(Case::AddXY { x1: h(x), y1: h(&yy), l1: h(&l1), x2: h(x), y2: h(&(&p - &yy)), l2: h(&l2), tag: format!("{}/opposite-points", tag) });
+                    }
+                }
+            }
+        }
+        ctx.cov("points_with_extreme_x", json!(count));
+    }
+    // the Jacobian encodings of the point at infinity, (t^2 : t^3 : 0) for t != 0 — not only the library's own (1 : 1 : 0) —
+    // met with finite points and with each other: O + Q, Q + O, O + O, 2O, -O, [3]O, (O + Q) + Q, is_zero.
+    // (Triples with Z = 0 that are not of this form, such as (0 : 1 : 0) or (0 : 0 : 0), denote no point and are not judged.)
+    {
+        let ts = [BigUint::one(), BigUint::from(2u32), &p - 1u32, rinv_p.clone(), g.nonzero_below(&p)];
+        let mut count = 0;
+        for t in &ts {
+            let (ix, iy) = ((t * t) % &p, (t * t * t) % &p);
+            for (k, l) in [(BigUint::one(), BigUint::one()), (BigUint::from(5u32), BigUint::from(2u32)), (&n - 1u32, &p - 1u32), (BigUint::one(), BigUint::zero())] {
+                cases.push(Case::InfOps { ix: h(&ix), iy: h(&iy), k: h(&k), l: h(&l) });
+                count += 1;
+            }
+        }
+        ctx.cov("infinity_encodings_x_partners", json!(count));
     }
     // the point at infinity as the base of a scalar multiplication, in the canonical (1,1,0) and in other encodings
     for t in [BigUint::one(), BigUint::from(2u32), g.nonzero_below(&p)] {
